@@ -4,6 +4,7 @@ package main
 import (
 	"bytes"
 	"fmt"
+	"strings"
 
 	gots "github.com/Comcast/gots/v2"
 	"github.com/Comcast/gots/v2/scte35"
@@ -781,8 +782,14 @@ func (b *built) checkpoint(viaString bool) {
 	var got []byte
 	if viaString {
 		b.log("String()")
+		prev := append([]byte{}, b.x.Data()...)
 		_ = b.x.String()
 		got = b.x.Data()
+		if bytes.Equal(got, prev) && !bytes.Equal(got, want) {
+			// String() did not re-encode the signal: the raw-data accessor may then not change, and it did not
+			b.c.Count("string_left_data_alone")
+			return
+		}
 	} else {
 		b.log("UpdateData()")
 		got = b.x.UpdateData()
@@ -1061,6 +1068,100 @@ func large(c *mon.Ctx, r *gen.Rand) {
 	c.Class(fmt.Sprintf("large/len=%d", len(want)/256))
 }
 
+// ---------------------------------------------------------------- (e) a decoded signal edited through its descriptors
+
+// decodedEdit decodes a canonical section and changes field values through the decoded descriptors,
+// without touching the signal: Data() stays the decoded section until the next encoding, the other
+// descriptors keep their values, and the next encoding is the canonical section of the new values.
+func decodedEdit(c *mon.Ctx, r *gen.Rand) {
+	s := ref.GenSig(r, true)
+	for len(s.SegDescs()) < 2 || r.Chance(3) && len(s.Descs) < 6 {
+		s.Descs = append(s.Descs, ref.GenSegDesc(r, false))
+	}
+	sec := s.Section()
+	in := s.Payload()
+	snap := append([]byte{}, in...)
+	x, err := scte35.NewSCTE35(in)
+	c.Eval(1)
+	w := func(got []byte, d string) wit {
+		return wit{Shape: s35.Shape(&s), Input: mon.Hex(snap), Got: mon.Hex(got), Want: mon.Hex(sec), Detail: d}
+	}
+	if err != nil || x == nil {
+		c.Fail("decoded-edit:decode-error", fmt.Sprintf("a canonical section was rejected: %v", err), w(nil, ""))
+		return
+	}
+	ds, ms := x.Descriptors(), s.SegDescs()
+	if len(ds) != len(ms) {
+		return // reported by C08
+	}
+	var edits []string
+	for n := 1 + r.Intn(3); n > 0; n-- {
+		k := r.Intn(len(ds))
+		d, m := ds[k], ms[k]
+		switch r.Intn(4) {
+		case 0, 1:
+			if m.Cancel || m.UPIDType == 0 || m.UPIDType == 0x0d {
+				continue
+			}
+			v := r.Bytes(r.PickInt([]int{0, 1, len(m.UPID), len(m.UPID) + 1, len(m.UPID) + 17, len(m.UPID) + 40, r.Intn(60)}))
+			keep := m.UPID
+			if m.UPID = v; len(m.Enc())-2 > 255 {
+				m.UPID = keep
+				continue
+			}
+			d.SetUPID(v)
+			edits = append(edits, fmt.Sprintf("descriptor %d SetUPID(%d bytes, was %d)", k, len(v), len(keep)))
+		case 2:
+			m.Event = r.Uint32()
+			d.SetEventID(m.Event)
+			edits = append(edits, fmt.Sprintf("descriptor %d SetEventID", k))
+		default:
+			if m.Cancel {
+				continue
+			}
+			m.Num, m.Exp = r.Byte(), r.Byte()
+			d.SetSegmentNumber(m.Num)
+			d.SetSegmentsExpected(m.Exp)
+			edits = append(edits, fmt.Sprintf("descriptor %d SetSegmentNumber/SetSegmentsExpected", k))
+		}
+	}
+	if len(edits) == 0 {
+		return
+	}
+	c.Count("decoded_edit.cases")
+	hist := strings.Join(edits, "; ")
+	if !bytes.Equal(x.Data(), sec) {
+		c.Fail("decoded-edit:data-changed-before-reencoding", "Data() of a decoded signal changed when a descriptor setter was called, before any re-encoding ("+hist+")", w(x.Data(), hist))
+		return
+	}
+	for k, d := range ds {
+		m := ms[k]
+		if m.Cancel {
+			continue
+		}
+		if m.UPIDType != 0x0d && !bytes.Equal(d.UPID(), m.UPID) {
+			c.Fail("decoded-edit:other-descriptor-upid", fmt.Sprintf("descriptor %d reports UPID %x, its value is %x (%s)", k, d.UPID(), m.UPID, hist), w(nil, hist))
+			return
+		}
+		if m.UPIDType == 0x0d {
+			mid := d.MID()
+			for j := range m.MID {
+				if j >= len(mid) || !bytes.Equal(mid[j].UPID(), m.MID[j].Data) || byte(mid[j].UPIDType()) != m.MID[j].Type {
+					c.Fail("decoded-edit:other-descriptor-mid", fmt.Sprintf("descriptor %d: MID element %d changed (%s)", k, j, hist), w(nil, hist))
+					return
+				}
+			}
+		}
+	}
+	want := s.Section()
+	got := x.UpdateData()
+	if !bytes.Equal(got, want) {
+		c.Fail("decoded-edit:bytes", fmt.Sprintf("after %s the next encoding differs from the canonical section of the new values at byte %d", hist, ref.FirstDiff(got, want)), wit{Shape: s35.Shape(&s), Input: mon.Hex(snap), Got: mon.Hex(got), Want: mon.Hex(want), Detail: hist})
+		return
+	}
+	c.Class(fmt.Sprintf("decoded-edit/%d-edits/descs=%d", len(edits), len(ds)))
+}
+
 func run(c *mon.Ctx) {
 	c.Rule("(a) canonical sections from the reference encoder (incl. foreign descriptors, cw_index, component lists) decoded and re-encoded; (b) the same field values built through Create*/Set* and encoded; (d) random histories of 5..40 setter calls (set, overwrite, clear, out-of-range values, command and descriptor replacement) with a reference encoding of the final logical values at every UpdateData()/String() checkpoint, decoded again and compared getter by getter; (f) sections longer than 1023 bytes. distinct non-trivial = distinct (stream, command shape, descriptor shapes / kinds of setters used) with at least one descriptor or a non-null command")
 	c.Assume("API gaps: cw_index, encryption_algorithm, foreign descriptors and splice_insert component lists cannot be set through the API and are covered by (a) only. Domain restrictions (DESIGN section 3): SetHasSubSegments(true) only on types 0x34/0x36; device restrictions in 0..3; when a command stores a time that it does not encode, pts_adjustment is masked in the byte comparison; delivery sub-flags, durations, components and sub-segment numbers are compared after decoding only where their governing flag makes them present")
@@ -1075,4 +1176,6 @@ func run(c *mon.Ctx) {
 	c.Stream("built", c.N(20000, 10000000), func(i int, r *gen.Rand) { builtFrom(c, r) })
 	c.Stream("histories", c.N(20000, 10000000), func(i int, r *gen.Rand) { history(c, r) })
 	c.Stream("large", c.N(100, 20000), func(i int, r *gen.Rand) { large(c, r) })
+	c.Floor("decoded_edit.cases", 3000)
+	c.Stream("decoded-edit", c.N(8000, 4000000), func(i int, r *gen.Rand) { decodedEdit(c, r) })
 }
